@@ -525,6 +525,12 @@ func (p *Printer) ref(t *Term) string {
 			op = "to_fp"
 		}
 		body = fmt.Sprintf("((_ %s %d %d) RNE %s)", op, eb, sb, args[0])
+	case "fp_to_fp":
+		eb, sb := 11, 53
+		if t.W == -32 {
+			eb, sb = 8, 24
+		}
+		body = fmt.Sprintf("((_ to_fp %d %d) RNE %s)", eb, sb, args[0])
 	case "fp.to_ubv", "fp.to_sbv":
 		body = fmt.Sprintf("((_ %s %d) RTZ %s)", t.Op, t.W, args[0])
 	case "fp.mul", "fp.add", "fp.sub", "fp.div":
@@ -601,6 +607,13 @@ func (p *Printer) ref(t *Term) string {
 	return name
 }
 
+
+// FPConst32 builds a float32 literal term from its IEEE bits.
+func FPConst32(bits uint32) *Term {
+	t := mk("fpconst", -32)
+	t.Name = fmt.Sprintf("(fp #b%b #b%08b #b%023b)", bits>>31, (bits>>23)&0xff, bits&((1<<23)-1))
+	return t
+}
 
 // FPConst builds a float64 literal term from its IEEE bits.
 func FPConst(bits uint64) *Term {
